@@ -514,6 +514,10 @@ func (its *jsonPrimitive) InsertLocalInArray(
 	errors.OrdaError, // error
 ) {
 	if parentArray, ok := its.findJSONArray(parent); ok {
+		// checked again under the lock: another goroutine may have changed the array since the caller looked
+		if err := parentArray.validateInsertPosition(pos); err != nil {
+			return nil, nil, err
+		}
 		target, _, err := parentArray.insertCommon(pos, nil, ts, values...)
 		return target, parentArray, err
 	}
@@ -540,6 +544,9 @@ func (its *jsonPrimitive) UpdateLocalInArray(
 	values ...interface{},
 ) ([]*model.Timestamp, []jsonType, errors.OrdaError) {
 	if parentArray, ok := its.findJSONArray(parent); ok {
+		if err := parentArray.validateGetRange(pos, len(values)); err != nil {
+			return nil, nil, err
+		}
 		return parentArray.updateLocal(pos, ts, values...)
 	}
 	return nil, nil, errors.DatatypeInvalidParent.New(its.getLogger(), parent.ToString())
@@ -563,6 +570,9 @@ func (its *jsonPrimitive) DeleteLocalInArray(
 	ts *model.Timestamp,
 ) ([]*model.Timestamp, []jsonType, errors.OrdaError) {
 	if parentArray, ok := its.findJSONArray(parent); ok {
+		if err := parentArray.validateGetRange(pos, numOfNodes); err != nil {
+			return nil, nil, err
+		}
 		t, j := parentArray.deleteLocal(pos, numOfNodes, ts)
 		return t, j, nil
 	}
